@@ -128,8 +128,13 @@ class Analysis:
             return set()
         out = set()
         rt = cb.term_of_local(0)
+        rets = cb.return_blocks()
         for i in range(cb.nargs):
             if cb.local_ty(i + 1) in SCALARS and self.israw(cb, {i}, rt):
+                # the callee may bound what it returns itself (`if index >= self.len() { return None }` before building the
+                # result): then the caller receives a bounded value whatever it passed
+                if rets and all(self.upper_bounded(cb, {i}, r, rt) for r in rets):
+                    continue
                 out.add(i)
         self.summ[fn] = out
         return out
@@ -152,6 +157,12 @@ class Analysis:
                                 continue
                             bad = True
             if not bad:
+                out.append(f)
+        # discriminant-correlated facts (a helper that returns Ok only behind its own checks, inlined): see guards.facts_at
+        from guards import facts_at
+        direct = [f for u, v, f in self._efacts(b)]
+        for f in facts_at(b, block):
+            if f[0] in ("cmp", "bool") and f not in out and not (f in direct and any(b.pred(v) == [u] and b.dominates(v, block) for u, v, g in self._efacts(b) if g == f)):
                 out.append(f)
         return out
 
@@ -226,6 +237,8 @@ class Analysis:
                 return all(self.upper_bounded(b, R, block, args[i], facts, depth + 1) for i in dep if i < len(args))
         if t0[0] in ("tuple",):
             return all(self.upper_bounded(b, R, block, x, facts, depth + 1) for x in t0[1])
+        if t0[0] == "adt":
+            return all(self.upper_bounded(b, R, block, x, facts, depth + 1) for x in t0[4])
         return False
 
     def true_implies(self, fn):
